@@ -34,6 +34,21 @@ func runC14(c *core.Ctx) {
 		layout := layouts[r.Intn(len(layouts))]
 		w := newWorld(r, worldOpts{Exact: i%2 == 0, Hostile: true, Notes: true, Layout: layout, MinDays: 1,
 			Names: gen.NameOpts{Unicode: true, Spaces: true, Slash: true, Punct: ".,;:'()&%+*=!?@_-\"#", MaxLen: 12, Edge: gen.EdgePunct}})
+		if i%60 == 7 && len(w.Log) > 0 && len(w.Unknown)+len(w.Basics) > 0 {
+			// a heading with a thousand and more food lines (a month or a year kept under one heading, an imported
+			// log) and notes: the notes, the merged foods and their order are printed like those of any other day
+			pool := append(append([]string{}, w.Basics...), w.Unknown...)
+			nlines := []int{1000, 1100, 2500}[r.Intn(3)]
+			d := &w.Log[r.Intn(len(w.Log))]
+			for k := 0; k < nlines; k++ {
+				d.Ents = append(d.Ents, gen.Ent{Name: pool[r.Intn(len(pool))], Val: gen.EQty(r)})
+			}
+			if len(d.Notes) == 0 {
+				d.Notes = []gen.Note{{Key: "source", Text: "imported"}, {Text: "a long day"}}
+			}
+			w.LogText = gen.RenderLog(w.Log, w.Layout, gen.Hostile(r))
+			c.Count("logs_with_a_day_of_1000_and_more_lines", 1)
+		}
 		files := map[string]string{"log.yaml": w.LogText}
 		var opts []string
 		env := map[string]string{}
